@@ -828,6 +828,20 @@ def def_values(graph, rdefs, node, name):
     return out
 
 
+def def_sites(graph, rdefs, node, name):
+    """(defining node, right-hand side) of the plain assignments to
+    ``name`` that reach ``node``."""
+    out = []
+    for dnode in sorted(rdefs.get(node, {}).get(name, ()),
+                        key=lambda n: n.id):
+        stmt = dnode.ast
+        if dnode.kind == 'stmt' and isinstance(stmt, ast.Assign) and \
+                len(stmt.targets) == 1 and \
+                isinstance(stmt.targets[0], ast.Name):
+            out.append((dnode, stmt.value))
+    return out
+
+
 class FlowSetExpr(SetExpr):
     """SetExpr whose local names are resolved flow-sensitively at a CFG
     node; when several definitions reach, every combination is evaluated
